@@ -5,8 +5,8 @@ import lexstreams as LS
 
 VOCAB = ["SELECT", "a", "(b,c)", "1", ",", "[x]", "From"]
 OPS = ["go:0", "go:1", "gn:1", "get", "pop", "mv:1", "close", "fin", "s:SELECT,a", "sm:SELECT,a", "sm:@NAME", "m:SELECT,a", "m:a", "mk:@PARENTHESIS", "ss:COMMA", "sms:COMMA", "ss:From", "sms:From", "sms:FROM", "sms:a", "sms:A", "s1:FROM",
-       "sm1:SELECT", "s2:SELECT,A", "sm2:A,FROM", "s3:SELECT,A,FROM", "sm3:SELECT,A,FROM", "set:a,1", "setu:FROM,SELECT", "smsetu:A,SELECT", "src", "psrc", "gkid", "pkid", "split:COMMA"]
-PEEK = ("go", "gn", "get", "close", "fin", "s", "mk", "ss", "s1", "s2", "s3", "set", "setu", "src", "gkid")
+       "sm1:SELECT", "s2:SELECT,A", "sm2:A,FROM", "s3:SELECT,A,FROM", "sm3:SELECT,A,FROM", "set:a,1", "setu:FROM,SELECT", "smsetu:A,SELECT", "src", "psrc", "gkid", "pkid", "gkadv", "split:COMMA"]
+PEEK = ("go", "gn", "get", "close", "fin", "s", "mk", "ss", "s1", "s2", "s3", "set", "setu", "src", "gkid", "gkadv")
 MOVE_N = {"sms:From": 1, "sms:FROM": 1, "sms:a": 1, "sms:A": 1, "sm:SELECT,a": 2, "sm:@NAME": 1, "sms:COMMA": 1, "sm1:SELECT": 1, "sm2:A,FROM": 2, "sm3:SELECT,A,FROM": 3, "smsetu:A,SELECT": 1}
 
 
@@ -42,6 +42,8 @@ def oracle(ntoks, ops, answer, toks=None):
             fails.append(("is-finish", "is_finish at %d of %d answered %s" % (pos, ntoks, r)))
         if name in ("pop", "psrc", "pkid", "split") and not r.startswith(("PARSE", "PY")) and p != pos + 1:
             fails.append(("pop-advance", "%s advanced by %d" % (op, p - pos)))
+        if name in ("gkid", "pkid") and r.startswith("kids") and not r.endswith("/0"):
+            fails.append(("child-cursor-not-fresh", "%s handed out a child cursor that does not start at the group's first token (%s)" % (op, r)))
         if r.startswith("PY "):
             fails.append(("foreign-exception", "%s raised %s" % (op, r)))
         if p < pos:
